@@ -1589,6 +1589,226 @@ fn run_hbtable(g: &mut SplitMix64, thorough: bool) {
     }
 }
 
+// ------------------------------------------------------------------------------------------
+// cutoff bookkeeping under the public calls `timestep`, `increase_cutoff_to`, `set_cutoff`. The sampler's cutoff is
+// the M of the diagonal update (sweep range 0..M, acceptance factors M - n); `increase_cutoff_to(c)` is documented
+// as a no-op for c below the current cutoff. One case per scenario (sampler + op sequence); oracle (real code only)
+// after every op, first failure wins. `set_cutoff` is only ever called with c >= get_cutoff().
+// ------------------------------------------------------------------------------------------
+
+#[derive(Clone, Copy, Debug)]
+enum CutOp {
+    Step,
+    Inc(usize),
+    Set(usize),
+}
+fn show_cutop(o: CutOp) -> String {
+    match o {
+        CutOp::Step => "s".into(),
+        CutOp::Inc(c) => format!("i{}", c),
+        CutOp::Set(c) => format!("c{}", c),
+    }
+}
+
+/// next op of a random scenario: `lead` steps first (the cutoff has grown before the first call), the last two ops
+/// are steps (steps follow the calls); calls relative to the current cutoff / n of the sampler
+fn draw_cutop(g: &mut SplitMix64, q: &Q, i: usize, nops: usize, lead: usize) -> CutOp {
+    if i < lead || i + 2 >= nops || g.chance(1, 2) {
+        return CutOp::Step;
+    }
+    let (cut, n) = (q.get_cutoff(), q.get_n());
+    if g.chance(1, 5) {
+        return CutOp::Set(cut + g.range(0, 10) as usize);
+    }
+    match g.below(6) {
+        0..=2 => CutOp::Inc(match g.below(5) {
+            0 => 0,
+            1 => 1,
+            2 => cut.saturating_sub(1),
+            3 if n > 0 => g.below(n as u64) as usize,
+            _ => g.below(cut.max(1) as u64) as usize,
+        }),
+        3 => CutOp::Inc(cut),
+        _ => CutOp::Inc(cut + g.range(1, 10) as usize),
+    }
+}
+
+/// the ops of a string without the `L<container length>:` prefix
+fn ops_part(slots: &str) -> &str {
+    &slots[slots.find(':').map(|i| i + 1).unwrap_or(0)..]
+}
+
+/// returns false when no scenario was run (no term accepted)
+fn cutoff_case(g: &mut SplitMix64, nvars: usize, calls: &[Call], beta: f64, do_loop: bool, hb: bool, fixed: Option<Vec<CutOp>>) -> bool {
+    let (mut q, _h) = build(g, nvars, calls, do_loop, hb);
+    if q.get_bonds().is_empty() {
+        return false;
+    }
+    expect_bonds(nvars, calls);
+    let (cut0, len0) = (q.get_cutoff(), q.get_manager_ref().get_cutoff());
+    let nops = fixed.as_ref().map(|f| f.len()).unwrap_or_else(|| g.range(25, 40) as usize);
+    let lead = *g.pick(&[0usize, 1, 3, 5, 8, 10, 12, 15]);
+    let (mut ops, mut cuts, mut lens, mut ns): (Vec<String>, Vec<usize>, Vec<usize>, Vec<usize>) = (vec![], vec![], vec![], vec![]);
+    let mut fail: Option<String> = None;
+    let mut at = String::new(); // what is running (named when it panics)
+    let (mut called, mut lowered, mut steps_after) = (false, false, 0usize);
+    // the model's rules (statistics only, never part of the oracle): (cutoff, container length) recomputed from
+    // cut0, len0, the ops and n after each op
+    let (mut mc, mut ml, mut rule_diff) = (cut0, len0, None::<String>);
+    let r = catch(|| {
+        for i in 0..nops {
+            let op = match &fixed {
+                Some(f) => f[i],
+                None => draw_cutop(g, &q, i, nops, lead),
+            };
+            at = format!("op {} ({})", i, show_cutop(op));
+            let (pc, pl, pn) = (q.get_cutoff(), q.get_manager_ref().get_cutoff(), q.get_n());
+            let before = (q.state_ref().to_vec(), show_slots(q.get_manager_ref()));
+            match op {
+                CutOp::Step => {
+                    q.timestep(beta);
+                }
+                CutOp::Inc(c) => q.increase_cutoff_to(c),
+                CutOp::Set(c) => q.set_cutoff(c),
+            }
+            let (c1, l1, n1) = (q.get_cutoff(), q.get_manager_ref().get_cutoff(), q.get_n());
+            ops.push(show_cutop(op));
+            cuts.push(c1);
+            lens.push(l1);
+            ns.push(n1);
+            let verdict: Result<(), String> = match op {
+                CutOp::Step => {
+                    stat(if lowered { "cutoff_steps_after_lowering_call" } else { "cutoff_steps_before_lowering_call" }, 1);
+                    steps_after += lowered as usize;
+                    if c1 > pc {
+                        stat("cutoff_steps_growing_the_cutoff", 1);
+                    }
+                    ml = ml.max(mc);
+                    mc = mc.max(n1 + n1 / 2 + 1);
+                    let m = q.get_manager_ref();
+                    let last = (0..l1).rev().find(|p| m.get_pth(*p).is_some());
+                    if let Err(e) = legal_and_consistent(&q) {
+                        Err(e)
+                    } else if c1 < pc {
+                        Err(format!("a time step lowered get_cutoff() from {} to {}", pc, c1))
+                    } else if c1 < n1 + n1 / 2 + 1 {
+                        Err(format!("get_cutoff() = {} after the step but n + n/2 + 1 = {}", c1, n1 + n1 / 2 + 1))
+                    } else if last.map(|p| p >= c1).unwrap_or(false) {
+                        Err(format!("an operator sits at p = {} but get_cutoff() = {} (positions >= cutoff are never swept)", last.unwrap(), c1))
+                    } else {
+                        Ok(())
+                    }
+                }
+                CutOp::Inc(c) | CutOp::Set(c) => {
+                    let inc = matches!(op, CutOp::Inc(_));
+                    if !called {
+                        called = true;
+                        stat(if pc > cut0 { "cutoff_first_call_after_growth" } else { "cutoff_first_call_before_growth" }, 1);
+                    }
+                    if inc {
+                        stat(if c < pc { "cutoff_call_below" } else if c == pc { "cutoff_call_equal" } else { "cutoff_call_above" }, 1);
+                        if c < pc {
+                            if n1 > 0 && c <= n1 {
+                                stat("cutoff_call_below_not_above_n", 1);
+                            }
+                            lowered = true;
+                        }
+                        mc = mc.max(c);
+                    } else {
+                        stat("cutoff_setcutoff", 1);
+                        mc = c;
+                    }
+                    ml = ml.max(mc);
+                    let want = if inc { pc.max(c) } else { c };
+                    if c1 != want {
+                        Err(if inc {
+                            format!("increase_cutoff_to({}) left get_cutoff() = {} but max(previous {}, {}) = {}", c, c1, pc, c, want)
+                        } else {
+                            format!("set_cutoff({}) left get_cutoff() = {}", c, c1)
+                        })
+                    } else if l1 < c1 {
+                        Err(format!("container length {} < get_cutoff() = {} after the call", l1, c1))
+                    } else if inc && n1 > c1 {
+                        Err(format!("n = {} > get_cutoff() = {} after the call", n1, c1))
+                    } else if n1 != pn || q.state_ref() != &before.0[..] || ops_part(&show_slots(q.get_manager_ref())) != ops_part(&before.1) {
+                        Err("the call changed the state / the operator string / n".into())
+                    } else {
+                        Ok(())
+                    }
+                }
+            };
+            if rule_diff.is_none() && (mc, ml) != (c1, l1) {
+                rule_diff = Some(format!("{}: rules give cutoff {} length {}, observed cutoff {} length {}", at, mc, ml, c1, l1));
+            }
+            if let (None, Err(e)) = (&fail, verdict) {
+                fail = Some(format!("{}: get_cutoff() {} -> {}, container length {} -> {}, n {} -> {}: {}", at, pc, c1, pl, l1, pn, n1, e));
+            }
+        }
+        at = format!("one more diagonal_update on a clone after the last op (op {})", nops - 1);
+        let (mut c, _) = deep_clone(&q);
+        c.diagonal_update(beta);
+    });
+    let input = format!(
+        "cutoff {} {} {} {}{} {} {} {} {}",
+        nvars, show_calls(calls), rat(beta), do_loop as u8, hb as u8, cut0, len0, list(&ops), list(&ns)
+    );
+    let out = match &r {
+        Ok(()) => format!("{} {}", list(&cuts), list(&lens)),
+        Err(_) => "PANIC".to_string(),
+    };
+    if let Err(p) = r {
+        // (the lists of the input hold the ops completed before the panic)
+        let e = format!("panic in {} after {} completed ops: {}", at, ops.len(), p);
+        fail = Some(match fail {
+            Some(f) => format!("{}; then {}", f, e),
+            None => e,
+        });
+    }
+    stat(if rule_diff.is_none() { "cutoff_model_rules_hold" } else { "cutoff_model_rules_differ" }, 1);
+    if let Some(d) = rule_diff {
+        eprintln!("cutoff rules differ: {} || {}", input, d);
+    }
+    stat(&format!("cutoff_final_{}", match cuts.last().copied().unwrap_or(cut0) { 0..=10 => "le10", 11..=30 => "11-30", 31..=60 => "31-60", 61..=120 => "61-120", _ => "gt120" }), 1);
+    stat(&format!("cutoff_final_n_{}", match ns.last().copied().unwrap_or(0) { 0 => "0", 1..=10 => "1-10", 11..=30 => "11-30", _ => "gt30" }), 1);
+    emit(steps_after > 0, &input, &out, Some(match fail { None => Ok(()), Some(e) => Err(e) }));
+    true
+}
+
+fn run_cutoff(g: &mut SplitMix64, thorough: bool) {
+    let nscen = if thorough { 640 } else { 64 };
+    for s in 0..nscen {
+        let fam = [0u64, 1, 2, 3, 4, 5][s % 6];
+        let (nvars, calls) = gen_system(g, fam);
+        let beta = *g.pick(&[0.5, 1.0, 2.0, 4.0]);
+        let (do_loop, hb) = (g.coin(), g.coin());
+        if cutoff_case(g, nvars, &calls, beta, do_loop, hb, None) {
+            stat("cutoff_scenarios", 1);
+            stat(&format!("cutoff_family_{}", fam), 1);
+        }
+    }
+    // fixed scenarios at beta = 4 (the cutoff grows well above nvars): (a) 20 steps, increase_cutoff_to(1),
+    // increase_cutoff_to(nvars), 10 steps; (b) a driver keeping a floor nvars + 2 on the cutoff before every step.
+    // Systems: the F22 witnesses (families 4, 5), the fixed cluster system 7, J zz - Gamma (x_0 + x_1) with offset.
+    let field = |v: usize| Call { variant: 0, mat: vec![1.0; 4], vars: vec![v] };
+    let tfim = vec![Call { variant: 3, mat: vec![-1.0, 1.0, 1.0, -1.0], vars: vec![0, 1] }, field(0), field(1)];
+    let systems: [(usize, Vec<Call>, bool, bool); 4] = [
+        { let (n, c) = gen_system(g, 4); (n, c, true, false) },
+        { let (n, c) = gen_system(g, 5); (n, c, true, true) },
+        { let (n, c) = gen_system(g, 7); (n, c, false, false) },
+        (2, tfim, false, false),
+    ];
+    for (nvars, calls, do_loop, hb) in systems.iter() {
+        let mut recipe = vec![CutOp::Step; 20];
+        recipe.extend([CutOp::Inc(1), CutOp::Inc(*nvars)]);
+        recipe.extend(vec![CutOp::Step; 10]);
+        let floor: Vec<CutOp> = (0..40).map(|i| if i % 2 == 0 { CutOp::Inc(nvars + 2) } else { CutOp::Step }).collect();
+        for plan in [recipe, floor] {
+            stat("cutoff_fixed_scenarios", 1);
+            cutoff_case(g, *nvars, calls, 4.0, *do_loop, *hb, Some(plan));
+        }
+    }
+}
+
 fn main() {
     quiet_panics();
     let a = args();
@@ -1611,5 +1831,8 @@ fn main() {
     }
     if all || a.mode == "hbtable" {
         run_hbtable(&mut g, a.thorough);
+    }
+    if all || a.mode == "cutoff" {
+        run_cutoff(&mut g, a.thorough);
     }
 }
